@@ -1166,7 +1166,8 @@ func (e *Entry) ApplyDeviate(deviateOpts ...DeviateOpt) []error {
 			continue
 		}
 
-		for dt, dv := range d.Deviate {
+		for _, step := range deviateInWrittenOrder(d) {
+			dt, dv := step.dt, []*Entry{step.spec}
 			for _, devSpec := range dv {
 				switch dt {
 				case DeviationAdd, DeviationReplace:
@@ -1286,6 +1287,39 @@ func (e *Entry) ApplyDeviate(deviateOpts ...DeviateOpt) []error {
 	}
 
 	return errs
+}
+
+// deviateStep is one deviate statement of a deviation: its kind and the Entry
+// built for it.
+type deviateStep struct {
+	dt   deviationType
+	spec *Entry
+}
+
+// deviateInWrittenOrder returns the deviate statements of d in the order they
+// are written (RFC 7950 7.20.3 applies them one after the other). d.Deviate
+// groups them by kind, which loses their relative order, so it is recovered
+// from the deviation's AST node; without one, the kinds are taken in a fixed
+// order.
+func deviateInWrittenOrder(d *DeviatedEntry) []deviateStep {
+	var steps []deviateStep
+	next := map[deviationType]int{}
+	if dn, ok := d.Node.(*Deviation); ok {
+		for _, sd := range dn.Deviate {
+			dt, ok := toDeviation[sd.Statement().Argument]
+			if !ok || next[dt] >= len(d.Deviate[dt]) {
+				continue
+			}
+			steps = append(steps, deviateStep{dt, d.Deviate[dt][next[dt]]})
+			next[dt]++
+		}
+	}
+	for _, dt := range []deviationType{DeviationUnset, DeviationNotSupported, DeviationAdd, DeviationReplace, DeviationDelete} {
+		for _, spec := range d.Deviate[dt][next[dt]:] {
+			steps = append(steps, deviateStep{dt, spec})
+		}
+	}
+	return steps
 }
 
 // FixChoice inserts missing Case entries for non-case entries within a choice
